@@ -1,24 +1,46 @@
 /- Line-protocol driver over the executable model (same definitions the theorems are about). -/
 import AnyTLS.Drv.Util
 import AnyTLS.Drv.Frame
+import AnyTLS.Drv.Sess
 
 open AnyTLS.Drv
 
-def dispatch (line : String) : String :=
-  match tokens line with
-  | "frame" :: rest => frameOp rest
-  | _ => "bad-op"
+structure DrvState where
+  sess : Option MNode := none
+  pipeC : Option MNode := none
+  pipeS : Option MNode := none
 
-partial def loop (h : IO.FS.Stream) (out : IO.FS.Stream) : IO Unit := do
+def sessLine (st : DrvState) (toks : List String) : DrvState × String :=
+  match toks with
+  | "reset" :: rest =>
+    match nodeReset rest with
+    | some (n, o) => ({ st with sess := some n }, o)
+    | none => ({ st with sess := none }, "reject")
+  | _ =>
+    match st.sess with
+    | none => (st, "nonode")
+    | some n =>
+      match nodeOp n toks with
+      | some (n', o) => ({ st with sess := some n' }, o)
+      | none => (st, "bad-op")
+
+def dispatch (st : DrvState) (line : String) : DrvState × String :=
+  match tokens line with
+  | "frame" :: rest => (st, frameOp rest)
+  | "sess" :: rest => sessLine st rest
+  | _ => (st, "bad-op")
+
+partial def loop (h : IO.FS.Stream) (out : IO.FS.Stream) (st : DrvState) : IO Unit := do
   let line ← h.getLine
   if line.isEmpty then return ()
   let l := line.trimAscii.toString
-  if l.isEmpty || l.startsWith "#" then loop h out else
-  out.putStrLn (l ++ " => " ++ dispatch l)
-  loop h out
+  if l.isEmpty || l.startsWith "#" then loop h out st else
+  let (st', o) := dispatch st l
+  out.putStrLn (l ++ " => " ++ o)
+  loop h out st'
 
 def main : IO Unit := do
   let stdin ← IO.getStdin
   let stdout ← IO.getStdout
-  loop stdin stdout
+  loop stdin stdout {}
   stdout.flush
